@@ -46,11 +46,11 @@ partial def parseFE : SExp → Option FE
   | _ => none
 
 def letterOfPanic : Panic → String
-  | .slice => "s" | .index => "i" | .nilDeref => "n" | .typeAssert => "a" | .explicit => "x"
+  | .slice => "s" | .index => "i" | .nilDeref => "n" | .typeAssert => "a" | .explicit => "x" | .stack => "k"
 
 def panicOfLetter : Char → Option Panic
   | 's' => some .slice | 'i' => some .index | 'n' => some .nilDeref | 'a' => some .typeAssert
-  | 'x' => some .explicit | _ => none
+  | 'x' => some .explicit | 'k' => some .stack | _ => none
 
 def verdictOfLetter (ch : Char) : Option (Res Bool) :=
   if ch == 't' then some (.ok true) else if ch == 'f' then some (.ok false)
